@@ -1,4 +1,4 @@
 From Coq Require Import Extraction ExtrOcamlBasic.
-From PV Require Import Lib.ExtractBase Model.StartLoop Model.StartAsync Model.StartWaiter Model.StartProfile Model.StartPerInst.
+From PV Require Import Lib.ExtractBase Model.StartLoop Model.StartAsync Model.StartWaiter Model.StartProfile Model.StartPerInst Model.StartCompLeft Model.StartOverflow.
 Extraction Language OCaml.
-Extraction "extracted/C12_model.ml" xb_types sinit sstep srun drive creations started_by released_by istep_tokens istep_spec istep_levels new_instance_step flatten ainit astep arun adrive live_ids quiescent wlinit wlstep wldrive not_ahead_b const_count const_count_by const_tokens pflatten pflatten_by profile_count piinit pistep pirun pidrive shots_of.
+Extraction "extracted/C12_model.ml" xb_types sinit sstep srun drive creations started_by released_by istep_tokens istep_spec istep_levels new_instance_step flatten ainit astep arun adrive live_ids quiescent wlinit wlstep wldrive not_ahead_b const_count const_count_by const_tokens pflatten pflatten_by profile_count piinit pistep pirun pidrive shots_of comp_left left_spec cnext cleft_trace cleft_spec_trace left_after ostep orun odrive.
